@@ -15,7 +15,7 @@ Proof.
     destruct (ptr <? hb + header_size); [reflexivity|exact V].
   - destruct (in_live (g_live g) addr); cbn [g_void]; auto.
   - exact V.
-  - exact V.
+  - cbn [g_void]. now rewrite V.
   - cbn [g_void]. now rewrite V.
 Qed.
 
@@ -47,7 +47,7 @@ Proof.
 Qed.
 
 Lemma pages_ok s m g : Inv s m g -> (m_pages m <=? max_wasm_pages) = true.
-Proof. intros [_ _ _ _ _ (A & B) _ _]. apply N.leb_le. lia. Qed.
+Proof. intros [_ _ _ _ _ A _ _]. apply N.leb_le. exact A. Qed.
 
 Theorem step_sound s m g o :
   Inv' s m g ->
@@ -101,22 +101,27 @@ Proof.
     + split; [|split; [|reflexivity]].
       * unfold step_ok. rewrite NV. cbn [orb o_pages o_res m_pages]. rewrite PGOK, IL. reflexivity.
       * right. exact HI.
-  - pose proof HI as [_ _ _ _ _ (P1 & P2) P3 _].
+  - (* memory.grow by the guest: nothing is demanded of this step itself (the size of the memory
+       is the environment's business); growing past 4 GiB voids the rest of the run *)
+    pose proof HI as [_ _ _ _ _ P1 P3 _].
     destruct (grow m pages) as [m1|] eqn:GR.
     + unfold grow in GR. destruct (m_pages m + pages <=? m_max m) eqn:LE; [|discriminate]. injection GR as <-.
-      apply N.leb_le in LE. split; [|split; [|reflexivity]].
-      * unfold step_ok. rewrite NV. cbn [orb o_pages o_res m_pages].
-        assert ((m_pages m + pages <=? max_wasm_pages) = true) as -> by (apply N.leb_le; lia). reflexivity.
-      * right. cbn [track o_pages m_pages]. apply (Inv_pages s m g); auto. lia.
+      split; [|split; [|reflexivity]].
+      * unfold step_ok. rewrite NV. reflexivity.
+      * cbn [track o_pages m_pages]. rewrite NV. cbn [orb].
+        destruct (max_wasm_pages <? m_pages m + pages) eqn:BIG; [left; reflexivity|right].
+        apply N.ltb_ge in BIG. apply (Inv_pages s m g); auto. lia.
     + split; [|split; [|reflexivity]].
-      * unfold step_ok. rewrite NV. cbn [orb o_pages o_res m_pages]. rewrite PGOK. reflexivity.
-      * right. cbn [track o_pages]. destruct m as [pg mx dt]. apply (Inv_pages s (mkMem pg mx dt) g pg); auto. cbn [m_pages m_max] in *. lia.
-  - pose proof HI as [_ _ _ _ _ (P1 & P2) P3 _]. split; [|split; [|reflexivity]].
-    + unfold step_ok. rewrite NV. cbn [orb o_pages o_res m_pages].
-      assert ((N.min pages (m_max m) <=? max_wasm_pages) = true) as -> by (apply N.leb_le; lia). reflexivity.
+      * unfold step_ok. rewrite NV. reflexivity.
+      * cbn [track o_pages]. rewrite NV. cbn [orb].
+        assert ((max_wasm_pages <? m_pages m) = false) as -> by (apply N.ltb_ge; exact P1). right.
+        destruct m as [pg mx dt]. apply (Inv_pages s (mkMem pg mx dt) g pg); auto. cbn [m_pages m_max] in *. lia.
+  - pose proof HI as [_ _ _ _ _ P1 P3 _]. split; [|split; [|reflexivity]].
+    + unfold step_ok. rewrite NV. reflexivity.
     + cbn [track o_pages m_pages]. rewrite NV. cbn [orb].
-      destruct (N.min pages (m_max m) <? g_pages g) eqn:SHR; [left; reflexivity|right].
-      apply N.ltb_ge in SHR. apply (Inv_pages s m g); auto. lia.
+      destruct (N.min pages (m_max m) <? g_pages g) eqn:SHR; [left; reflexivity|]. cbn [orb].
+      destruct (max_wasm_pages <? N.min pages (m_max m)) eqn:BIG; [left; reflexivity|right].
+      apply N.ltb_ge in SHR. apply N.ltb_ge in BIG. apply (Inv_pages s m g); auto. lia.
 Qed.
 
 Theorem run_sound : forall ops s m g,
@@ -138,11 +143,11 @@ Proof.
 Qed.
 
 Lemma Inv_init c init :
-  c_pages c <= c_max c -> c_max c <= max_wasm_pages ->
+  c_pages c <= max_wasm_pages ->
   (forall a, align_up (c_hb c) <= a -> init a = 0) ->
   Inv (init_st (c_hb c)) (init_mem c init) (ghost0 (c_pages c)).
 Proof.
-  intros P1 P2 Z. constructor; cbn [init_st init_mem ghost0 g_shadow g_written g_dead g_pages s_poisoned m_pages m_max]; auto.
+  intros P1 Z. constructor; cbn [init_st init_mem ghost0 g_shadow g_written g_dead g_pages s_poisoned m_pages m_max]; auto.
   - intros a v H. discriminate.
   - intros a v H. discriminate.
   - intros a [].
@@ -159,15 +164,15 @@ Proof.
 Qed.
 
 Theorem check_run c init ops :
-  c_pages c <= c_max c -> c_max c <= max_wasm_pages ->
+  c_pages c <= max_wasm_pages ->
   (forall a, align_up (c_hb c) <= a -> init a = 0) ->
   check c (run fixed c init ops) = true.
 Proof.
-  intros P1 P2 Z. unfold check, run.
+  intros P1 Z. unfold check, run.
   change (align_up (c_hb c)) with (s_hb (init_st (c_hb c))). apply run_sound. right. now apply Inv_init.
 Qed.
 
-(* two direct facts about the mirrored functions *)
+(* direct facts about the mirrored functions *)
 Lemma alloc_too_large v s m size : max_alloc < size -> exists e, fst (fst (alloc v s m size)) = RErr e.
 Proof.
   intros H. unfold alloc. destruct (s_poisoned s); [eexists; reflexivity|].
@@ -198,4 +203,14 @@ Proof.
   destruct (read_header m (ptr - header_size)) as [[l|o]|e']; try reflexivity.
   destruct (write_header m (ptr - header_size) (HFree (s_heads (with_last s (msize m)) o))); [|reflexivity].
   cbn [s_ba with_last]. destruct (s_ba s <? osize o + header_size); [reflexivity|discriminate].
+Qed.
+
+Lemma max_request_and_poisoning s m x :
+     (max_alloc < x -> exists e, fst (fst (alloc fixed s m x)) = RErr e)
+  /\ (forall e, fst (fst (alloc fixed s m x)) = RErr e -> s_poisoned (snd (fst (alloc fixed s m x))) = true)
+  /\ (forall e, fst (fst (dealloc fixed s m x)) = RErr e -> s_poisoned (snd (fst (dealloc fixed s m x))) = true)
+  /\ (s_poisoned s = true -> alloc fixed s m x = (RErr EPoisoned, s, m) /\ dealloc fixed s m x = (RErr EPoisoned, s, m)).
+Proof.
+  split; [apply alloc_too_large|]. split; [apply error_poisons_alloc|].
+  split; [apply error_poisons_dealloc|apply poisoned_forever].
 Qed.
